@@ -214,6 +214,18 @@ def replay(task, res):
                     pool.remove(k)
                 else:
                     bad = True
+        if not bad:
+            # which rows an unordered LIMIT keeps is unspecified (hash order): the window may hide a wrong full result.
+            # Compare the query without its LIMIT / OFFSET on both systems.
+            base = re.sub(r'\s+(LIMIT \d+)?(\s*OFFSET \d+)?$', '', task['sql'])
+            st2 = stmts[:-4] + ['pragma disable_optimizer' if res['which'] != 'optimized' else 'pragma enable_optimizer', base]
+            (out2, rc2, err2), = tv.run_sql('mem', st2)
+            q2 = [o for o in out2 if o.get('sql') == base]
+            r2 = rows(q2[-1]) if q2 else None
+            how['without_limit'] = {'risinglight': r2, 'sqlite': full if not isinstance(full, str) else None}
+            if r2 is not None and pool is not None and sorted(json.dumps(r) for r in r2) != sorted(json.dumps([norm_cell(c) for c in r]) for r in full):
+                how['note'] = 'the LIMIT window hides it on this run; the full result differs'
+                bad = True
         return {'reproduced': bad, 'how': how}
     diff = sorted(json.dumps(r) for r in got) != sorted(json.dumps(r) for r in lite)
     if not diff and res.get('mode', '').startswith('ordered'):
